@@ -290,30 +290,44 @@ fn run(v: &Value) -> Result<String, String> {
             }
             Ok(format!("first={first_s} second={second_s} received={} bytes, {frames} whole frames", bytes.len()))
         }
-        "async_server_write_timeout" => {
-            // C05 scenario for the async server: write_timeout configured, response larger than the socket
+        "async_server_write_timeout" | "blocking_server_write_timeout" => {
+            // C05 scenario for a TCP server: write_timeout configured, response larger than the socket
             // buffers, peer stalled past the timeout, then a second request on the same connection.
+            // Bounded: one scenario (sizes and delays below).
             use std::io::{Read as _, Write as _};
             use std::time::Duration;
-            let big = v.get("big_bytes").and_then(|x| x.as_u64()).unwrap_or(24 << 20) as usize;
-            let rt = tokio::runtime::Builder::new_multi_thread().worker_threads(2).enable_all().build().unwrap();
+            let big = v.get("big_bytes").and_then(|x| x.as_u64()).unwrap_or(8 << 20) as usize;
             let router = repe::Router::new()
                 .with_json("/big", move |_v: serde_json::Value| Ok(serde_json::Value::String("x".repeat(big))))
                 .with_json("/small", |_v: serde_json::Value| Ok(serde_json::json!("ok")));
-            let listener = rt.block_on(repe::AsyncServer::listen("127.0.0.1:0")).unwrap();
-            let addr = listener.local_addr().unwrap();
-            let server = repe::AsyncServer::new(router).write_timeout(Some(Duration::from_millis(100)));
-            rt.spawn(async move {
-                let _ = server.serve(listener).await;
-            });
+            let addr;
+            let _rt;
+            if entry == "async_server_write_timeout" {
+                let rt = tokio::runtime::Builder::new_multi_thread().worker_threads(2).enable_all().build().unwrap();
+                let listener = rt.block_on(repe::AsyncServer::listen("127.0.0.1:0")).unwrap();
+                addr = listener.local_addr().unwrap();
+                let server = repe::AsyncServer::new(router).write_timeout(Some(Duration::from_millis(100)));
+                rt.spawn(async move {
+                    let _ = server.serve(listener).await;
+                });
+                _rt = Some(rt);
+            } else {
+                let server = repe::Server::new(router).write_timeout(Some(Duration::from_millis(100)));
+                let listener = server.listen("127.0.0.1:0").unwrap();
+                addr = listener.local_addr().unwrap();
+                std::thread::spawn(move || {
+                    let _ = server.serve(listener);
+                });
+                _rt = None;
+            }
             let mut s = std::net::TcpStream::connect(addr).unwrap();
             let req = |id: u64, path: &str| {
                 repe::Message::builder().id(id).query_str(path).query_format(repe::QueryFormat::JsonPointer)
                     .body_json(&serde_json::json!(null)).unwrap().build().to_vec()
             };
             s.write_all(&req(1, "/big")).unwrap();
-            std::thread::sleep(Duration::from_millis(1500)); // stalled reader: the server's write times out
-            s.write_all(&req(2, "/small")).unwrap();
+            std::thread::sleep(Duration::from_millis(2500)); // stalled reader: the server's write times out
+            let _ = s.write_all(&req(2, "/small"));
             s.set_read_timeout(Some(Duration::from_millis(1500))).unwrap();
             let mut bytes = Vec::new();
             let mut buf = vec![0u8; 1 << 16];
@@ -331,8 +345,6 @@ fn run(v: &Value) -> Result<String, String> {
                     Ok(h) => {
                         if off + h.length as usize > bytes.len() {
                             // torn frame: nothing may follow it -- look for the second response inside it
-                            let second = repe::Message::builder().id(2).build().header.encode();
-                            let _ = second;
                             let tail = &bytes[off + 48..];
                             let has_second = tail.windows(4).any(|w| w == b"\"ok\"");
                             if has_second {
